@@ -278,7 +278,9 @@ def one_input(ctx, inp, cid, tmp, heavy=True):
 
                 def rt(fmt=fmt, fn=fn):
                     base.save(fn, fileformat=fmt)
-                    return Network.Load(fn, fileformat=fmt, silence_level=3)
+                    return Network.Load(
+                        fn, fileformat=fmt if (len(fn) + n) % 2 else None,
+                        silence_level=3)
                 ctx.count("roundtrips")
                 build(f"save-Load:{fmt}", rt, text=fmt != "pickle")
             # history on one object: save, change the node weights (back
@@ -305,6 +307,31 @@ def one_input(ctx, inp, cid, tmp, heavy=True):
                     check_net(ctx, net2, {**inp, "w": w2},
                               f"save-change-weights({tag})-save-Load", cid,
                               text=fmt != "pickle")
+    # a chain through two formats: saved, loaded, node weights changed on
+    # the loaded object, saved in another format, loaded again
+    if heavy and base is not None:
+        rc = ctx.rng("chain", cid)
+        f1, f2 = [FORMATS[int(i)] for i in rc.permutation(len(FORMATS))[:2]]
+        w3 = G.pos_weights(rc, n, "loguni")
+
+        def chain():
+            a1 = os.path.join(tmp, f"c1.{f1}")
+            a2 = os.path.join(tmp, f"c2.{f2}")
+            mk(A).save(a1, fileformat=f1)
+            o = Network.Load(a1, fileformat=f1, silence_level=3)
+            o.node_weights = w3
+            o.save(a2, fileformat=f2)
+            return Network.Load(a2, fileformat=f2, silence_level=3)
+        okc, netc = ctx.call(chain)
+        ctx.count("roundtrips")
+        if not okc:
+            ctx.violation(f"save-Load-change-save-Load:raises:"
+                          f"{type(netc).__name__}:{icls}",
+                          {"exc": repr(netc), "formats": [f1, f2]}, cid)
+        else:
+            check_net(ctx, netc, {**inp, "w": w3},
+                      f"save:{f1}-Load-change-weights-save:{f2}-Load", cid,
+                      text=True)
     # spatial subclasses
     if heavy and not d:
         from pyunicorn.core import GeoNetwork, SpatialNetwork, GeoGrid, Grid
@@ -320,6 +347,9 @@ def one_input(ctx, inp, cid, tmp, heavy=True):
         nwt = [None, "surface", "irrigation", "custom"][int(
             rg.integers(0, 4))]
         wc = G.pos_weights(rg, n, "loguni")
+        auto_fmt = bool(rg.random() < 0.5)
+        if not auto_fmt:
+            ctx.count("format_detected_from_file_name")
 
         def geo_rt():
             net = GeoNetwork(gg, adjacency=A, node_weight_type=(
@@ -330,7 +360,8 @@ def one_input(ctx, inp, cid, tmp, heavy=True):
             fn = (os.path.join(tmp, "geo." + gfmt),
                   os.path.join(tmp, "geo.grid"))
             net.save(fn, fileformat=gfmt)
-            return GeoNetwork.Load(fn, fileformat=gfmt, silence_level=3)
+            return GeoNetwork.Load(fn, fileformat=gfmt if auto_fmt else None,
+                                   silence_level=3)
         coslat = np.cos(np.float32(lat) * np.pi / 180)
         coslat = {None: np.ones(n), "surface": coslat,
                   "irrigation": coslat ** 2, "custom": wc}[nwt]
@@ -387,8 +418,10 @@ def one_input(ctx, inp, cid, tmp, heavy=True):
             fn = (os.path.join(tmp, "sp." + gfmt),
                   os.path.join(tmp, "sp.grid"))
             net.save(fn, fileformat=gfmt)
-            return SpatialNetwork.Load(fn, fileformat=gfmt,
-                                       silence_level=3)
+            # (half of the time the format is left to be detected from the
+            #  file name, as the documentation allows)
+            return SpatialNetwork.Load(fn, fileformat=gfmt if auto_fmt
+                                       else None, silence_level=3)
         ctx.count("roundtrips")
         build(f"SpatialNetwork.save-Load:{gfmt}", sp_rt, text=True)
 
